@@ -209,15 +209,24 @@ _cache = {}
 
 
 def load(tier="quick"):
-    d, info = ensure(tier)
-    if d not in _cache:
-        with open(os.path.join(d, "mir.json")) as fh:
-            mir = json.load(fh)
-        with open(os.path.join(d, "src.json")) as fh:
-            src = json.load(fh)
-        _cache[d] = (mir, src)
-    mir, src = _cache[d]
-    return mir, src, info
+    last = None
+    for attempt in range(3):
+        d, info = ensure(tier)
+        if d not in _cache:
+            try:
+                with open(os.path.join(d, "mir.json")) as fh:
+                    mir = json.load(fh)
+                with open(os.path.join(d, "src.json")) as fh:
+                    src = json.load(fh)
+            except (OSError, ValueError) as ex:
+                # a cached directory can be evicted by a check running in parallel between the hit and the read: extract again
+                last = ex
+                shutil.rmtree(d, ignore_errors=True)
+                continue
+            _cache[d] = (mir, src)
+        mir, src = _cache[d]
+        return mir, src, info
+    raise SystemExit("facts: cannot read the extracted facts (%s)" % last)
 
 
 if __name__ == "__main__":
